@@ -1076,4 +1076,45 @@ theorem recompile_sig (d : PDef V) (gu : GenUnpack) (gp : GenPack) :
   · simp only [recompileDef, PDef.sigDefaults]
     exact alookup_filterMap_params_notin d.names (alookup d.sigDefaults) p hp
 
+
+/-- under a guard that converts every class not converted yet, the converted classes are the instantiated ones -/
+theorem DChain.mem_run (c : DChain V) (g : NewGuard) (hg : g = .always ∨ g = .oncePerClass) (evs : List Nat) (k : Nat) :
+    k ∈ c.run g evs ↔ k ∈ evs := by
+  unfold DChain.run
+  suffices h : ∀ acc : List Nat, k ∈ evs.foldl (c.newStep g) acc ↔ k ∈ evs ∨ k ∈ acc by simpa using h []
+  induction evs with
+  | nil => intro acc; simp
+  | cons e es ih =>
+    intro acc
+    simp only [List.foldl_cons, ih, List.mem_cons]
+    have hstep : k ∈ c.newStep g acc e ↔ k = e ∨ k ∈ acc := by
+      rcases hg with hg | hg <;> subst hg <;> simp only [DChain.newStep]
+      · simp
+      · by_cases hc : e ∈ acc
+        · simp only [List.contains_iff_mem, hc, if_true]
+          constructor
+          · exact Or.inr
+          · rintro (h | h)
+            · subst h; exact hc
+            · exact h
+        · simp [hc]
+    rw [hstep]
+    constructor
+    · rintro (h | h | h)
+      · exact Or.inl (Or.inr h)
+      · exact Or.inl (Or.inl h)
+      · exact Or.inr h
+    · rintro ((h | h) | h)
+      · exact Or.inr (Or.inl h)
+      · exact Or.inl h
+      · exact Or.inr (Or.inr h)
+
+theorem DChain.mem_newStep (c : DChain V) (g : NewGuard) (hg : g = .always ∨ g = .oncePerClass) (conv : List Nat)
+    (k : Nat) : k ∈ c.newStep g conv k := by
+  rcases hg with hg | hg <;> subst hg <;> simp only [DChain.newStep]
+  · simp
+  · by_cases hc : k ∈ conv
+    · simp [hc]
+    · simp [hc]
+
 end Ipv8.C20
